@@ -113,3 +113,140 @@ Example C08_ex_boxes :
   map (fun l => let b := label_box Left 1 (55 # 1) l in (Qred (rx b), Qred (ry b), rw b, rh b)) ex_ls =
   [ (-56 # 1, 0 # 1, 55 # 1, 17 # 1); (-46 # 1, 18 # 1, 91 # 2, 17 # 1); (-75 # 1, 8 # 1, 18 # 1, 64 # 1) ].
 Proof. vm_compute. split; reflexivity. Qed.
+
+(* ==========================================================================
+   C08 for layouts PRODUCED BY THE ENGINE: no `separated` hypothesis left.
+
+   Composition of three models:
+     coq/Render/Compose.v   Timeline.get_nodes / compute (timeline.py:235-277):
+                            items -> engine labels (idealPos = scale(time), width =
+                            padded extent along the axis) -> Force.layout -> one scene
+                            label per engine node (sizes by identity, chain = reported
+                            positions of its stubs, then its own);
+     coq/Layout/Force.v     the engine (C06; C01_all_layers: every reported layer of
+                            a compute is solve_layer of that layer's problem);
+     coq/Layout/Layer.v     one layer (C01_pairwise_labels: two labels of a layer are
+                            (w_a + w_b)/2 + nodeSpacing - 1 apart, no guard).
+   tl_item = (scale(time), given width, text, function colours);
+   scene_labels d p e its = self.nodes after compute() for direction d, padding p,
+   engine options e;  compose_dom = the documented domain (C08_domain below). *)
+From Labella Require Import Layout.ForceState Layout.ForceStateProofs Layout.Force Layout.ForceProofs.
+From Labella Require Import Render.Compose Render.ComposeProofs.
+Open Scope Q_scope.
+
+(* the documented domain is enough *)
+Theorem C08_domain : forall d p e its,
+  (forall it, In it its -> 0 < ti_width it) ->
+  0 <= padL p -> 0 <= padR p -> 0 <= padT p -> 0 <= padB p ->
+  0 <= e_spacing e -> 0 <= e_stub e -> 0 < e_density e -> lineSp_ok e ->
+  compose_dom d p e its.
+Proof. exact compose_dom_simple. Qed.
+Print Assumptions C08_domain.
+
+(* the scene built from the engine's layout satisfies `separated`, for every
+   direction and every label spacing (>= 0) *)
+Theorem engine_separated : forall d p e its, compose_dom d p e its ->
+  forall i j a b,
+    nth_error (scene_labels d p e its) i = Some a -> nth_error (scene_labels d p e its) j = Some b ->
+    i <> j -> l_layer a = l_layer b ->
+    separated d (e_spacing e) a b \/ separated d (e_spacing e) b a.
+Proof. exact engine_separated_lemma. Qed.
+Print Assumptions engine_separated.
+
+(* ... and every scene label is well formed *)
+Theorem C08_engine_wf : forall d p e its, compose_dom d p e its ->
+  forall l, In l (scene_labels d p e its) -> label_wf l.
+Proof. exact scene_labels_wf. Qed.
+Print Assumptions C08_engine_wf.
+
+(* a scene label sits in the engine's layer at the engine's position *)
+Theorem C08_engine_label : forall d p its rep nd,
+  let l := scene_label d p its rep nd in
+  l_layer l = Z.of_nat (n_layer nd) /\ l_cur l = qz (n_cur nd) /\ l_ideal l = n_pos nd /\
+  length (l_chain l) = S (n_layer nd).
+Proof. exact scene_label_engine. Qed.
+Print Assumptions C08_engine_label.
+
+(* all boxes drawn for the engine's layout are pairwise disjoint: every label
+   set, nodeSpacing >= 3, layerGap >= 1, all four directions *)
+Theorem C08_engine_disjoint : forall d p G e its,
+  3 <= e_spacing e -> 1 <= G -> compose_dom d p e its ->
+  let ls := scene_labels d p e its in
+  forall i j a b, nth_error ls i = Some a -> nth_error ls j = Some b -> i <> j ->
+    rect_disjoint (label_box d G (node_height d ls) a) (label_box d G (node_height d ls) b).
+Proof. exact engine_boxes_disjoint. Qed.
+Print Assumptions C08_engine_disjoint.
+
+(* on the named side, more than G - 1 from the axis *)
+Theorem C08_engine_side : forall d p G e its l,
+  0 <= G -> compose_dom d p e its ->
+  let ls := scene_labels d p e its in
+  In l ls ->
+  G - 1 < cross_near d (label_box d G (node_height d ls) l) /\
+  cross_near d (label_box d G (node_height d ls) l) <= cross_far d (label_box d G (node_height d ls) l).
+Proof. exact engine_box_side. Qed.
+Print Assumptions C08_engine_side.
+
+(* boxes of a farther layer lie wholly beyond boxes of a nearer layer *)
+Theorem C08_engine_layers : forall d p G e its a b,
+  1 <= G -> compose_dom d p e its ->
+  let ls := scene_labels d p e its in
+  In a ls -> In b ls -> (l_layer a < l_layer b)%Z ->
+  cross_far d (label_box d G (node_height d ls) a) < cross_near d (label_box d G (node_height d ls) b).
+Proof. exact engine_box_layers. Qed.
+Print Assumptions C08_engine_layers.
+
+(* hence for the two documents export() writes *)
+Theorem C08_engine_disjoint_drawn : forall o ticks e its,
+  3 <= e_spacing e -> 1 <= o_gap o -> compose_dom (o_dir o) (o_pad o) e its ->
+  let s := engine_scene o ticks e its in
+  forall pic, pic = geom_svg (svg_doc_of s) \/ pic = geom_tikz (tikz_doc_of s) ->
+  forall i j bi bj, nth_error (pc_boxes pic) i = Some bi -> nth_error (pc_boxes pic) j = Some bj -> i <> j ->
+    rect_disjoint (pbox_rect bi) (pbox_rect bj).
+Proof. exact engine_drawn_disjoint. Qed.
+Print Assumptions C08_engine_disjoint_drawn.
+
+(* the chain of a scene label is what [h.currentPos for h in
+   node.getPathFromRoot()] gives: in every layer j below the label's own, the
+   one item the engine reports for this label is a stub, at position chain[j];
+   the last entry is the label's own reported position (C02_targets) *)
+Theorem C08_engine_chain : forall d p e its, compose_dom d p e its ->
+  let st := engine_result d p e its in
+  forall nd, In nd (st_nodes st) ->
+    In (n_id nd, false, inject_Z (last (chain_of (reported st) nd) 0%Z)) (nth (n_layer nd) (reported st) []) /\
+    forall j, (j < n_layer nd)%nat ->
+      let c := inject_Z (nth j (chain_of (reported st) nd) 0%Z) in
+      In (n_id nd, true, c) (nth j (reported st) []) /\
+      forall b c', In (n_id nd, b, c') (nth j (reported st) []) -> b = true /\ c' = c.
+Proof. exact engine_chain_stubs_lemma. Qed.
+Print Assumptions C08_engine_chain.
+
+(* non-vacuity: five items (one without text), padding 2/2/3/2, bounds 0..150,
+   density 1/2, nodeSpacing 3 and layerGap 1 (both extreme); the engine needs
+   three layers for direction up and two for direction left.  The domain
+   holds and the scene and its boxes come out as the arithmetic says. *)
+From Labella Require Layout.Distribute.
+Definition ex_items : list tl_item :=
+  [mkTlItem 10 50 (Some [97%N]) []; mkTlItem 12 40 (Some [98%N]) []; mkTlItem 14 (121 # 2) None [];
+   mkTlItem 100 50 (Some [99%N]) []; mkTlItem 101 30 (Some [100%N]) []].
+Definition ex_pad : padding := mkPad 2 2 3 2.
+Definition ex_eopts : eopts := mkEopts Distribute.AlgOverlap (Some 0) (Some 150) (1 # 2) 3 1 None.
+
+Example C08_ex_engine_domain : forall d, compose_dom d ex_pad ex_eopts ex_items /\ 3 <= e_spacing ex_eopts.
+Proof.
+  intro d. split; [|discriminate].
+  apply C08_domain; try discriminate; try exact I; try reflexivity.
+  intros it [<-|[<-|[<-|[<-|[<-|[]]]]]]; reflexivity.
+Qed.
+
+Example C08_ex_engine_scene :
+  map (fun l => (l_layer l, l_chain l, Qred (l_w l), Qred (l_h l))) (scene_labels Up ex_pad ex_eopts ex_items) =
+  [(2%Z, [0%Z; 0%Z; 27%Z], 54, 18); (1%Z, [3%Z; 26%Z], 44, 18); (0%Z, [39%Z], 129 # 2, 18);
+   (1%Z, [90%Z; 90%Z], 54, 18); (0%Z, [111%Z], 34, 18)] /\
+  map (fun l => (l_layer l, l_chain l, Qred (l_w l), Qred (l_h l))) (scene_labels Left ex_pad ex_eopts ex_items) =
+  [(1%Z, [0%Z; 8%Z], 55, 17); (1%Z, [3%Z; 28%Z], 45, 17); (0%Z, [39%Z], 18, 129 # 2);
+   (1%Z, [94%Z; 94%Z], 55, 17); (0%Z, [106%Z], 35, 17)] /\
+  (let ls := scene_labels Left ex_pad ex_eopts ex_items in
+   map (fun l => let b := label_box Left 1 (node_height Left ls) l in (Qred (rx b), Qred (ry b), Qred (rw b), Qred (rh b))) ls) =
+  [(-112, 0, 55, 17); (-102, 19, 45, 17); (-19, 6, 18, 129 # 2); (-112, 85, 55, 17); (-36, 97, 35, 17)].
+Proof. vm_compute. repeat split; reflexivity. Qed.
